@@ -241,13 +241,16 @@ def _r112(ck, prog, cfg):
             n += 1
             okp = False
             if cf is not None:
-                for bb, i, st in cf.stmts():
-                    rv = st["rv"]
-                    if rv["k"] == "bin" and rv["op"] == "Gt":
-                        a = src_of_operand(cf, rv["a"])
-                        if a.fields[-1:] == ("id",):
-                            okp = True
-            ck.check(okp, "R11.2", "%s:filter-predicate%s" % (short, _tag(cfg)), "the segment filter is not `s.id > last_checkpoint_segment`",
+                cmps = [st["rv"] for bb, i, st in cf.stmts() if st["rv"]["k"] == "bin" and st["rv"]["op"] in ("Gt", "Lt", "Ge", "Le", "Eq", "Ne")]
+                branches = [bb for bb in cf.reachable_blocks() if cf.term(bb)["k"] == "switch"]
+                calls = [callee(t2) for bb, t2 in cf.calls()]
+                # the predicate is exactly one comparison: `s.id > last_checkpoint_segment` (no further conjunct, no call)
+                if len(cmps) == 1 and not branches and not calls and cmps[0]["op"] == "Gt":
+                    a = src_of_operand(cf, cmps[0]["a"])
+                    if a.fields[-1:] == ("id",):
+                        okp = True
+            ck.check(okp, "R11.2", "%s:filter-predicate%s" % (short, _tag(cfg)), "the segment filter is not exactly `s.id > last_checkpoint_segment` (any further condition, e.g. on stamp ranges, can skip a "
+                     "listed segment whose updates the checkpoint does not contain: stamps come from independent per-shard clocks)",
                      g.where(t["ln"]), detail="filter(id > checkpoint id)")
             guarded = False
             for gd in lib2.guards(g, b):
